@@ -29,23 +29,12 @@ BUILD = os.path.join(ROOT, "build")
 KNOWN = os.path.join(ROOT, "KNOWN_FINDINGS.txt")
 MODULE = "github.com/pion/webrtc/v4"
 
-# overlay directory name -> package dir relative to /repo
-PKGDIRS = {
-    "root": ".",
-    "mux": "internal/mux",
-    "fmtp": "internal/fmtp",
-    "samplebuilder": "pkg/media/samplebuilder",
-    "h264reader": "pkg/media/h264reader",
-    "h265reader": "pkg/media/h265reader",
-    "h264writer": "pkg/media/h264writer",
-    "h265writer": "pkg/media/h265writer",
-    "ivfreader": "pkg/media/ivfreader",
-    "ivfwriter": "pkg/media/ivfwriter",
-    "oggreader": "pkg/media/oggreader",
-    "oggwriter": "pkg/media/oggwriter",
-    "rtpdump": "pkg/media/rtpdump",
-    "media": "pkg/media",
-}
+def pkgdir(name):
+    """Package of /repo (relative dir) a harness directory is overlaid into: first line of harness/<name>/PKG."""
+    f = os.path.join(HARNESS, name, "PKG")
+    if not os.path.exists(f):
+        raise NoVerdict("harness/%s/PKG missing" % name)
+    return open(f).read().split()[0]
 
 
 class NoVerdict(Exception):
@@ -350,7 +339,7 @@ def _overlay(pkgs):
     repl = {}
     for pk in pkgs:
         src = os.path.join(HARNESS, pk)
-        dst = os.path.normpath(os.path.join(REPO, PKGDIRS[pk]))
+        dst = os.path.normpath(os.path.join(REPO, pkgdir(pk)))
         if os.path.isdir(src):
             for f in sorted(os.listdir(src)):
                 if f.endswith(".go"):
@@ -391,7 +380,7 @@ def go_build(ctx, pk, race=False, tags="verif"):
     os.makedirs(bindir, exist_ok=True)
     final = os.path.join(bindir, "%s%s.test" % (pk, "-race" if race else ""))
     tmp = final + ".%d" % os.getpid()
-    pkgpath = "./" + PKGDIRS[pk] if PKGDIRS[pk] != "." else "."
+    pkgpath = "./" + pkgdir(pk) if pkgdir(pk) != "." else "."
     cmd = ["go", "test", "-c", "-vet=off", "-tags", tags, "-overlay", ov, "-o", tmp]
     if race:
         cmd.append("-race")
@@ -497,8 +486,12 @@ def tlc_trace(ctx, spec, cfg, trace, timeout=900, extra_env=None, chunk=20000):
 
 def load_known():
     known, fixed = [], []
-    if os.path.exists(KNOWN):
-        for line in open(KNOWN):
+    files = [KNOWN] if os.path.exists(KNOWN) else []
+    fd = os.path.join(ROOT, "checks", "findings")   # staging area, merged into KNOWN_FINDINGS.txt
+    if os.path.isdir(fd):
+        files += [os.path.join(fd, f) for f in sorted(os.listdir(fd)) if f.endswith(".txt")]
+    for path in files:
+        for line in open(path):
             line = line.strip()
             if not line or line.startswith("#"):
                 continue
